@@ -6,6 +6,7 @@ import Kingdon.Lemmas.Bits
 import Kingdon.Lemmas.Reverse
 import Kingdon.Lemmas.Products
 import Kingdon.Lemmas.CfgAlgebra
+import Kingdon.Lemmas.GradedSums
 namespace Kingdon.C03
 
 /-- filter of `codegen_op`: `k_out == kx + ky` holds exactly for disjoint blades -/
@@ -75,5 +76,50 @@ omit hr in
     hypotheses of the theorems above are met by every algebra kingdon can construct -/
 theorem table_hypotheses_hold (h : c.admissible = true) : TableRange c.computeSign ∧ TableSymm c.computeSign :=
   ⟨Cfg.tableRange_of_adm c (Cfg.adm_of_admissible c h), Cfg.tableSymm_of_adm c (Cfg.adm_of_admissible c h)⟩
+
+/-! the same in the wording of the property: sums over r, s of grade parts of products of grade parts (D bounds the
+grades that occur, e.g. the dimension) -/
+section wording
+open BigOperators
+variable {α : Type} [CommRing α]
+
+/-- a ^ b is the sum over r, s of the grade r+s part of <a>_r <b>_s -/
+theorem outer_product_is_sum_of_grade_parts (s : Nat → Nat → Int) (D : Nat) (X Y : ℕ →₀ α)
+    (hX : GradeBound D X) (hY : GradeBound D Y) :
+    bilin (gradedTable s fun r t g => g == r + t) (· ^^^ ·) X Y =
+      ∑ r ∈ Finset.range (D + 1), ∑ t ∈ Finset.range (D + 1), gradeProj (r + t) (clMulS s (gradeProj r X) (gradeProj t Y)) :=
+  op_is_sum_of_grade_parts s D X Y hX hY
+
+/-- a | b: grade |r-s| parts -/
+theorem inner_product_is_sum_of_grade_parts (s : Nat → Nat → Int) (D : Nat) (X Y : ℕ →₀ α)
+    (hX : GradeBound D X) (hY : GradeBound D Y) :
+    bilin (gradedTable s fun r t g => g + r == t || g + t == r) (· ^^^ ·) X Y =
+      ∑ r ∈ Finset.range (D + 1), ∑ t ∈ Finset.range (D + 1),
+        gradeProj (if r ≤ t then t - r else r - t) (clMulS s (gradeProj r X) (gradeProj t Y)) :=
+  ip_is_sum_of_grade_parts s D X Y hX hY
+
+/-- a.lc(b): grade s-r parts (nothing for s < r) -/
+theorem left_contraction_is_sum_of_grade_parts (s : Nat → Nat → Int) (D : Nat) (X Y : ℕ →₀ α)
+    (hX : GradeBound D X) (hY : GradeBound D Y) :
+    bilin (gradedTable s fun r t g => g + r == t) (· ^^^ ·) X Y =
+      ∑ r ∈ Finset.range (D + 1), ∑ t ∈ Finset.range (D + 1),
+        (if r ≤ t then gradeProj (t - r) (clMulS s (gradeProj r X) (gradeProj t Y)) else 0) :=
+  lc_is_sum_of_grade_parts s D X Y hX hY
+
+/-- a.rc(b): grade r-s parts -/
+theorem right_contraction_is_sum_of_grade_parts (s : Nat → Nat → Int) (D : Nat) (X Y : ℕ →₀ α)
+    (hX : GradeBound D X) (hY : GradeBound D Y) :
+    bilin (gradedTable s fun r t g => g + t == r) (· ^^^ ·) X Y =
+      ∑ r ∈ Finset.range (D + 1), ∑ t ∈ Finset.range (D + 1),
+        (if t ≤ r then gradeProj (r - t) (clMulS s (gradeProj r X) (gradeProj t Y)) else 0) :=
+  rc_is_sum_of_grade_parts s D X Y hX hY
+
+/-- a.sp(b): grade 0 parts -/
+theorem scalar_product_is_sum_of_grade_parts (s : Nat → Nat → Int) (D : Nat) (X Y : ℕ →₀ α)
+    (hX : GradeBound D X) (hY : GradeBound D Y) :
+    bilin (gradedTable s fun _ _ g => g == 0) (· ^^^ ·) X Y =
+      ∑ r ∈ Finset.range (D + 1), ∑ t ∈ Finset.range (D + 1), gradeProj 0 (clMulS s (gradeProj r X) (gradeProj t Y)) :=
+  sp_is_sum_of_grade_parts s D X Y hX hY
+end wording
 
 end Kingdon.C03
